@@ -24,7 +24,14 @@ D = "_griffe.diff"
 def run(prog: Program, ctx: Ctx) -> None:  # noqa: PLR0912,PLR0915
     cg = CallGraph(prog)
     mi = prog.function(f"{D}._member_incompatibilities")
-    tby = prog.function(f"{D}._type_based_yield")
+    tby = prog.functions.get(f"{D}._type_based_yield")
+    if tby is None:
+        # renamed: the dispatcher is the one function of the module that calls the alias comparison
+        cands = [f_ for f_ in prog.functions.values() if f_.module.name == D and f_.cls is None and f_.name != "_alias_incompatibilities"
+                 and any(dotted(c_.func) == "_alias_incompatibilities" for c_ in calls_in(f_.node))]
+        if len(cands) != 1:
+            raise AnalysisError(f"C11: the dispatch function of the comparison (calls _alias_incompatibilities) not found: {[c_.name for c_ in cands]}")
+        tby = cands[0]
 
     # ------------------------------------------------------------------ R1 public frontier
     ctx.rule("R1", "the member walk reports only on public old members, and it walks and looks up through all_members on both sides: a public "
@@ -132,7 +139,7 @@ def run(prog: Program, ctx: Ctx) -> None:  # noqa: PLR0912,PLR0915
                    "present -> delegated to the type dispatch); fewer and different bases -> ClassRemovedBaseBreakage; attribute value changed -> "
                    "AttributeChangedValueBreakage")
     del itp.stubs[f"{D}._member_incompatibilities"]
-    itp.stubs[f"{D}._type_based_yield"] = stub("_type_based_yield")
+    itp.stubs[tby.qualname] = stub("_type_based_yield")
     for public, alias, kind, present in itertools.product((True, False), (False, True), ("MODULE", "FUNCTION"), (True, False)):
         calls.clear()
         m_old = member(kind, alias=alias, path="p.m", public=public)
